@@ -145,7 +145,9 @@ fn run_body_fixed(n: usize, d: usize, klen: usize, start_kind: u8, undef: u8, pr
     sc.print_ok = w_pok;
     drv::reset(sc);
     drv::set_shape(n, d, start_kind, undef, klen, pre_err);
-    if fix_kind != 255 {
+    if fix_kind == 254 {
+        drv::set_last_is_hlt(true);
+    } else if fix_kind != 255 {
         sc.kind[0] = fix_kind;
         sc.int[0] = fix_int;
         drv::fix_first(fix_kind, fix_int);
@@ -370,7 +372,7 @@ fn run_body_fixed(n: usize, d: usize, klen: usize, start_kind: u8, undef: u8, pr
     vassert!("C08.run.log_complete", !io::log_overflow());
     let runs = start_kind == 1 && !never_defined && n > 0 && !pre_err;
     vcover!("C20.run.cover.prompt_by_trap_flag_only", stepped_tf_only || !runs || klen < 2);
-    let free = fix_kind == 255;
+    let free = fix_kind == 255 || fix_kind == 254;
     let can = runs && klen >= 1;
     vcover!("C20.run.cover.int3", saw_int3 || !can || !(free || (fix_kind == 4 && fix_int == 3)));
     vcover!("C08.run.cover.backward_jump", saw_back_jump || !can || !(free || fix_kind == 2));
@@ -417,6 +419,13 @@ first_harness!(c03_run_first_int0, 2, 4, 0);
 first_harness!(c20_run_first_int3, 2, 4, 3);
 first_harness!(c18_run_first_int10, 2, 4, 0x10);
 first_harness!(c18_run_first_int21, 2, 4, 0x21);
+// a program that ends with its own hlt, start anywhere (also after it): the first instruction only
+#[cfg_attr(kani, kani::proof)]
+#[cfg_attr(kani, kani::unwind(12))]
+#[cfg_attr(kani, kani::stub(core::str::slice_error_fail, emulator_8086_lib::verif_rt::slice_fail_stub))]
+pub fn c15_run_program_ending_in_hlt() {
+    run_body_fixed(2, 0, 0, 1, 0, false, 254, 0);
+}
 run_harness!(c14_run_start_absent, 1, 0, 1, 0, 0, false, 12);
 run_harness!(c14_run_start_is_data, 1, 0, 1, 2, 0, false, 12);
 run_harness!(c14_run_undefined_label, 1, 0, 1, 1, 1, false, 12);
@@ -449,6 +458,7 @@ pub const TABLE: &[(&str, fn())] = &[
     ("c20_run_first_int3", c20_run_first_int3),
     ("c18_run_first_int10", c18_run_first_int10),
     ("c18_run_first_int21", c18_run_first_int21),
+    ("c15_run_program_ending_in_hlt", c15_run_program_ending_in_hlt),
     ("c14_run_start_absent", c14_run_start_absent),
     ("c14_run_start_is_data", c14_run_start_is_data),
     ("c14_run_undefined_label", c14_run_undefined_label),
